@@ -33,8 +33,8 @@ CONSTANTS Writers, Files, DirOf, Req, Style, Privileged, Mixed, KnownDev, MaxCra
 \* Req[w] = the file objects writer w adds; DirOf[w] = its directory object; Style[w] = "transfer" | "add"
 Objects == UNION {Req[w] : w \in Writers} \cup {DirOf[w] : w \in Writers}
 
-VARIABLES final, prot, gen, vouch, tmp, pc, todo, batch, first, probed, failedW, crashes, clock, dev, act, owner, tried
-vars == <<final, prot, gen, vouch, tmp, pc, todo, batch, first, probed, failedW, crashes, clock, dev, act, owner, tried>>
+VARIABLES final, prot, gen, vouch, tmp, pc, todo, batch, first, probed, failedW, crashes, clock, dev, act, owner, tried, srcok
+vars == <<final, prot, gen, vouch, tmp, pc, todo, batch, first, probed, failedW, crashes, clock, dev, act, owner, tried, srcok>>
 
 Intact(o) == final[o] = "ok"
 Vouched(o) == vouch[o] # 0 /\ vouch[o] = gen[o]       \* a row whose token matches the file now there
@@ -58,10 +58,10 @@ Query(w) ==
                \* (re-hashing an unprotected object through the state cache records a row for it)
                /\ vouch' = [o \in Objects |-> IF o \in all /\ final[o] = "ok" /\ ~prot[o] THEN gen[o] ELSE vouch[o]]
           ELSE /\ todo' = [todo EXCEPT ![w] = {o \in all : final[o] = "none"}]
-               /\ UNCHANGED <<final, prot, vouch, owner, tried>>
+               /\ UNCHANGED <<final, prot, vouch, owner, tried, srcok>>
     /\ pc' = [pc EXCEPT ![w] = "files"] /\ batch' = [batch EXCEPT ![w] = {}] /\ first' = [first EXCEPT ![w] = "yes"]
     /\ act' = [op |-> "Query", w |-> w]
-    /\ UNCHANGED <<gen, tmp, failedW, crashes, clock, dev, probed, owner, tried>>
+    /\ UNCHANGED <<gen, tmp, failedW, crashes, clock, dev, probed, owner, tried, srcok>>
 
 Phase(w) == pc[w] \in {"files", "dir"}
 Pending(w) == todo[w] \cap BatchOf(w, pc[w])
@@ -77,31 +77,32 @@ ProbeOpen(w, o) ==
        THEN \* F10 (open): EACCES on another writer's protected object is not a tolerated errno: this writer fails
             /\ failedW' = failedW \cup {w} /\ pc' = [pc EXCEPT ![w] = "failed"]
             /\ dev' = IF "F10" \in KnownDev THEN dev \cup {"F10"} ELSE dev
-            /\ UNCHANGED <<final, gen, clock, first>>
+            /\ UNCHANGED <<final, gen, clock, first, srcok>>
        ELSE /\ final' = [final EXCEPT ![o] = "empty"]
             /\ gen' = [gen EXCEPT ![o] = clock] /\ clock' = clock + 1
             /\ first' = [first EXCEPT ![w] = "unlink"]
-            /\ UNCHANGED <<failedW, pc, dev>>
+            /\ UNCHANGED <<failedW, pc, dev, srcok>>
     /\ probed' = [probed EXCEPT ![w] = o]
     /\ owner' = IF final[o] = "none" THEN [owner EXCEPT ![o] = w] ELSE owner     \* O_CREAT makes it ours only when it was not there
     /\ act' = [op |-> "ProbeOpen", w |-> w, o |-> o]
-    /\ UNCHANGED <<prot, vouch, tmp, todo, batch, crashes, tried>>
+    /\ UNCHANGED <<prot, vouch, tmp, todo, batch, crashes, tried, srcok>>
 \* ... ioctl(FICLONE) fails, os.unlink(final)
 ProbeUnlink(w, o) ==
     /\ Phase(w) /\ first[w] = "unlink" /\ o \in Pending(w) /\ tmp[w][o] = "none" /\ probed[w] = o
     /\ final' = [final EXCEPT ![o] = "none"] /\ prot' = [prot EXCEPT ![o] = FALSE]
     /\ first' = [first EXCEPT ![w] = "probed"]
     /\ act' = [op |-> "ProbeUnlink", w |-> w, o |-> o]
-    /\ UNCHANGED <<gen, vouch, tmp, pc, todo, batch, failedW, crashes, clock, dev, probed, owner, tried>>
+    /\ UNCHANGED <<gen, vouch, tmp, pc, todo, batch, failedW, crashes, clock, dev, probed, owner, tried, srcok>>
 \* the probed object is copied first, the others afterwards (one put_file each: copy to a temporary name, rename)
 CanCopy(w, o) == /\ Phase(w) /\ o \in Pending(w) /\ tmp[w][o] = "none"
                  /\ (first[w] = "probed" /\ probed[w] = o) \/ first[w] = "copied" \/ (pc[w] = "dir" /\ Style[w] # "transfer")
+\* a writer copies from ITS OWN source (its workspace, its staging area), which is intact for as long as it runs
 TmpCopy(w, o) ==
-    /\ CanCopy(w, o)
+    /\ CanCopy(w, o) /\ srcok[w]
     /\ tmp' = [tmp EXCEPT ![w][o] = "full"]
     /\ first' = [first EXCEPT ![w] = "copied"]
     /\ act' = [op |-> "TmpCopy", w |-> w, o |-> o]
-    /\ UNCHANGED <<final, prot, gen, vouch, pc, todo, batch, failedW, crashes, clock, dev, probed, owner, tried>>
+    /\ UNCHANGED <<final, prot, gen, vouch, pc, todo, batch, failedW, crashes, clock, dev, probed, owner, tried, srcok>>
 Rename(w, o) ==
     /\ Phase(w) /\ tmp[w][o] = "full"
     /\ final' = [final EXCEPT ![o] = "ok"] /\ prot' = [prot EXCEPT ![o] = FALSE]
@@ -110,7 +111,7 @@ Rename(w, o) ==
     /\ todo' = [todo EXCEPT ![w] = @ \ {o}] /\ batch' = [batch EXCEPT ![w] = @ \cup {o}]
     /\ owner' = [owner EXCEPT ![o] = w]
     /\ act' = [op |-> "Rename", w |-> w, o |-> o]
-    /\ UNCHANGED <<vouch, pc, first, failedW, crashes, dev, probed, tried>>
+    /\ UNCHANGED <<vouch, pc, first, failedW, crashes, dev, probed, tried, srcok>>
 \* HashFileDB.add epilogue: protect every oid passed to the call, then one save_many transaction vouching for each
 \* of them as it is at that moment.  transfer() passes only what its status query found missing; add()-style
 \* callers (index.save, build with upload) pass the whole batch, also what "already exists".
@@ -122,7 +123,7 @@ VerifyOne(w, o) ==
     /\ Style[w] = "addv" /\ Sealable(w) /\ o \in Epilogue(w) /\ final[o] = "ok" /\ ~prot[o] /\ ~Vouched(o)
     /\ vouch' = [vouch EXCEPT ![o] = gen[o]]
     /\ act' = [op |-> "VerifyOne", w |-> w, o |-> o]
-    /\ UNCHANGED <<final, prot, gen, tmp, pc, todo, batch, first, probed, failedW, crashes, clock, dev, owner, tried>>
+    /\ UNCHANGED <<final, prot, gen, tmp, pc, todo, batch, first, probed, failedW, crashes, clock, dev, owner, tried, srcok>>
 Protect(w, o) ==
     /\ Sealable(w) /\ o \in Epilogue(w) /\ final[o] # "none" /\ ~prot[o] /\ o \notin tried[w]
     /\ (Style[w] = "addv" /\ final[o] = "ok") => Vouched(o)
@@ -133,7 +134,7 @@ Protect(w, o) ==
     \* F7 (open): what is protected here may be the empty file a crash inside the reflink probe left behind
     /\ dev' = IF final[o] = "empty" /\ "F7" \in KnownDev THEN dev \cup {"F7"} ELSE dev
     /\ act' = [op |-> "Protect", w |-> w, o |-> o]
-    /\ UNCHANGED <<final, gen, vouch, tmp, pc, todo, batch, first, failedW, crashes, clock, probed, owner>>
+    /\ UNCHANGED <<final, gen, vouch, tmp, pc, todo, batch, first, failedW, crashes, clock, probed, owner, srcok>>
 Vouch(w) ==
     /\ Sealable(w) /\ \A o \in Epilogue(w) : final[o] # "none" => (prot[o] \/ o \in tried[w])
     /\ vouch' = [o \in Objects |-> IF o \in Epilogue(w) /\ final[o] # "none" THEN gen[o] ELSE vouch[o]]
@@ -142,14 +143,21 @@ Vouch(w) ==
     /\ first' = [first EXCEPT ![w] = "yes"] /\ batch' = [batch EXCEPT ![w] = {}]
     /\ tried' = [tried EXCEPT ![w] = {}]
     /\ act' = [op |-> "Vouch", w |-> w]
-    /\ UNCHANGED <<final, prot, gen, tmp, todo, failedW, crashes, clock, probed, owner>>
+    /\ UNCHANGED <<final, prot, gen, tmp, todo, failedW, crashes, clock, probed, owner, srcok>>
 
 \* transfer(): a batch in which nothing is new is not handed to add() at all
 NothingToSend(w) ==
     /\ Phase(w) /\ Style[w] = "transfer" /\ Pending(w) = {} /\ batch[w] = {} /\ first[w] = "yes"
     /\ pc' = [pc EXCEPT ![w] = IF pc[w] = "files" THEN "dir" ELSE "done"]
     /\ act' = [op |-> "NothingToSend", w |-> w]
-    /\ UNCHANGED <<final, prot, gen, vouch, tmp, todo, batch, first, probed, failedW, crashes, clock, dev, owner, tried>>
+    /\ UNCHANGED <<final, prot, gen, vouch, tmp, todo, batch, first, probed, failedW, crashes, clock, dev, owner, tried, srcok>>
+
+\* a writer that is done moves on: its workspace is rewritten or removed.  Nobody else may depend on it.
+Retire(w) ==
+    /\ pc[w] \in {"done", "failed"} /\ srcok[w]
+    /\ srcok' = [srcok EXCEPT ![w] = FALSE]
+    /\ act' = [op |-> "Retire", w |-> w]
+    /\ UNCHANGED <<final, prot, gen, vouch, tmp, pc, todo, batch, first, probed, failedW, crashes, clock, dev, owner, tried>>
 
 (***************************** crash and re-run *****************************)
 Crash ==
@@ -158,7 +166,7 @@ Crash ==
     /\ tmp' = tmp          \* temporaries stay behind under their temporary names
     /\ crashes' = crashes + 1
     /\ act' = [op |-> "Crash"]
-    /\ UNCHANGED <<final, prot, gen, vouch, todo, batch, first, failedW, clock, dev, probed, owner, tried>>
+    /\ UNCHANGED <<final, prot, gen, vouch, todo, batch, first, failedW, clock, dev, probed, owner, tried, srcok>>
 Rerun(w) ==
     /\ pc[w] = "crashed"
     /\ pc' = [pc EXCEPT ![w] = "query"] /\ todo' = [todo EXCEPT ![w] = {}] /\ batch' = [batch EXCEPT ![w] = {}]
@@ -166,10 +174,10 @@ Rerun(w) ==
     /\ tmp' = [tmp EXCEPT ![w] = [o \in Objects |-> "none"]]   \* a new run uses new temporary names
     /\ tried' = [tried EXCEPT ![w] = {}]
     /\ act' = [op |-> "Rerun", w |-> w]
-    /\ UNCHANGED <<final, prot, gen, vouch, failedW, crashes, clock, dev, probed, owner>>
+    /\ UNCHANGED <<final, prot, gen, vouch, failedW, crashes, clock, dev, probed, owner, srcok>>
 
 Next ==
-    \/ \E w \in Writers : Query(w) \/ Vouch(w) \/ NothingToSend(w) \/ Rerun(w)
+    \/ \E w \in Writers : Query(w) \/ Vouch(w) \/ NothingToSend(w) \/ Rerun(w) \/ Retire(w)
     \/ \E w \in Writers, o \in Objects : ProbeOpen(w, o) \/ ProbeUnlink(w, o) \/ TmpCopy(w, o) \/ Rename(w, o) \/ Protect(w, o) \/ VerifyOne(w, o)
     \/ Crash
 
@@ -177,7 +185,7 @@ Init == /\ final = [o \in Objects |-> "none"] /\ prot = [o \in Objects |-> FALSE
         /\ vouch = [o \in Objects |-> 0] /\ tmp = [w \in Writers |-> [o \in Objects |-> "none"]]
         /\ pc = [w \in Writers |-> "query"] /\ todo = [w \in Writers |-> {}] /\ batch = [w \in Writers |-> {}]
         /\ first = [w \in Writers |-> "yes"] /\ probed = [w \in Writers |-> "-"] /\ failedW = {} /\ crashes = 0 /\ clock = 1 /\ dev = {} /\ act = [op |-> "Init"]
-        /\ owner = [o \in Objects |-> "-"] /\ tried = [w \in Writers |-> {}]
+        /\ owner = [o \in Objects |-> "-"] /\ tried = [w \in Writers |-> {}] /\ srcok = [w \in Writers |-> TRUE]
 Spec == Init /\ [][Next]_vars
 
 (******************************* properties *********************************)
